@@ -16,13 +16,13 @@
    strictly monotone in the ticks for a constant boot time, so the [<=] tests of the
    code are modelled on ticks (float layer trusted, see notes).
 
-   The first three booleans of [fixes] stand for the three repairs found with this check and
+   The four booleans of [fixes] stand for the four repairs found with this check and
    committed to /repo (6afb079 children() never returns the caller, 3959fba parent()
-   checks the caller's identity first, e202d3b parents() keeps a seen set):
+   checks the caller's identity first, e202d3b parents() keeps a seen set, 671469c parents()
+   ends the chain when an ancestor vanishes during the walk):
    [as_is] (all true) = the code as it is now, [before_fixes] = the code before them
    (kept so that the old defects stay stated, and reverting a repair is modelled).
-   [fx_parents_nsp] is the proposed repair notes/fixes/C05-parents-vanished-ancestor.diff
-   (not in /repo: false in [as_is]). *)
+   [before_nsp_fix] = the code before the fourth only. *)
 From PV Require Export Base.Prelude.
 
 Record kproc := { kp_pid : Z; kp_ppid : Z; kp_start : Z }.
@@ -33,11 +33,12 @@ Record fixes := { fx_skip_self : bool;       (* children(): never yield the call
                   fx_parent_reuse : bool;    (* parent(): identity pre-check before the lowest-PID stop *)
                   fx_parents_nsp : bool }.   (* parents(): an ancestor that vanished mid-walk ends the chain *)
 Definition as_is : fixes :=
-  {| fx_skip_self := true; fx_parents_seen := true; fx_parent_reuse := true; fx_parents_nsp := false |}.
+  {| fx_skip_self := true; fx_parents_seen := true; fx_parent_reuse := true; fx_parents_nsp := true |}.
 Definition before_fixes : fixes :=
   {| fx_skip_self := false; fx_parents_seen := false; fx_parent_reuse := false; fx_parents_nsp := false |}.
-Definition with_nsp_fix : fixes :=
-  {| fx_skip_self := true; fx_parents_seen := true; fx_parent_reuse := true; fx_parents_nsp := true |}.
+(* the code between the first three repairs and the fourth *)
+Definition before_nsp_fix : fixes :=
+  {| fx_skip_self := true; fx_parents_seen := true; fx_parent_reuse := true; fx_parents_nsp := false |}.
 
 (* the caller: a Process object created earlier.  [o_ident] = start ticks read by
    _get_ident() when it was created; [o_ctime] = the create_time() cache
